@@ -410,6 +410,7 @@ fn cache_key_stream(query: &Query, key_name: &Name, ty: RecordType, recs: &[Reco
 }
 
 struct FreshInfo {
+    validated_at: u32,
     canon: Vec<Option<Vec<u8>>>,
     indep_ok: bool,
     sig: S,
@@ -720,9 +721,14 @@ fn exec_inner(t: &[&str]) -> Option<Out> {
                 // validation had the same RRSIG but other canonical RDATA
                 let canon_now: Vec<Option<Vec<u8>>> = recs_n.iter().map(|r| r.rd.ref_canon()).collect();
                 let dev2 = !fresh && p0 == Proof::Secure && h.memory.get(&ck).map(|fi| fi.sig == s && fi.canon != canon_now).unwrap_or(false);
+                // since /repo 207ce2a an RRSIG whose signer is not the owner or an ancestor of it is skipped
+                // without a DNSKEY lookup: fresh/cached cannot be told apart (and does not matter)
+                let signer_l = s.signer.lower_labels();
+                let owner_l = name_n.lower_labels();
+                let nolookup = !(signer_l.len() <= owner_l.len() && signer_l.iter().rev().zip(owner_l.iter().rev()).all(|(a, b2)| a == b2));
                 let out = format!(
                     "{} {} {} sig {sig_out} dev={}{}",
-                    if fresh { "fresh" } else { "cached" },
+                    if nolookup { "nolookup" } else if fresh { "fresh" } else { "cached" },
                     proof_tok(p0),
                     ttls.iter().map(|t| t.to_string()).collect::<Vec<_>>().join(" "),
                     b(dev),
@@ -748,7 +754,7 @@ fn exec_inner(t: &[&str]) -> Option<Out> {
                 let refc = s.ref_case(&name_n, s.cls, &recs_n);
                 let raw_lower: Vec<Vec<u8>> = recs_n.iter().map(|r| r.rd.ref_canon().unwrap_or_default().to_ascii_lowercase()).collect();
                 if fresh {
-                    h.memory.insert(ck.clone(), FreshInfo { canon: recs_n.iter().map(|r| r.rd.ref_canon()).collect(), indep_ok: bad_now.is_empty(), sig: s.clone(), ref_bytes: refc.ref_signed_data(), raw_lower: raw_lower.clone() });
+                    h.memory.insert(ck.clone(), FreshInfo { validated_at: now, canon: recs_n.iter().map(|r| r.rd.ref_canon()).collect(), indep_ok: bad_now.is_empty(), sig: s.clone(), ref_bytes: refc.ref_signed_data(), raw_lower: raw_lower.clone() });
                 }
                 if p0 == Proof::Secure {
                     if fresh {
@@ -868,6 +874,59 @@ fn gen_base(r: &mut Rng) -> Base {
     Base { ki, k, s, name, ty, recs, now }
 }
 
+
+/// An RRSIG whose Expiration lies *before* its Inception in serial arithmetic (an empty validity
+/// period — also across the u32 wrap — or the undefined distance 2^31), re-signed, plus the clock
+/// values around both timestamps.  Returns the clocks to try.
+fn make_empty_window(b: &mut Base, r: &mut Rng) -> Vec<u32> {
+    let inc = *r.pick(&[2_000_000u32, 1_700_000_000, 5, 0, 0xFFFF_FFF0, 0x8000_0000, 0x7FFF_FFFF]);
+    let d = *r.pick(&[1u32, 10, 1_000_000, 0x7FFF_FFFF, 0x7FFF_FFFE, 0x8000_0000]);
+    // d < 2^31: expiration d seconds before inception; d = 2^31: comparison undefined
+    let exp = inc.wrapping_sub(d);
+    b.s.inc = inc;
+    b.s.exp = exp;
+    let bytes = b.s.ref_case(&b.name, 1, &b.recs).ref_signed_data().expect("reference bytes");
+    b.s.sig = sign_with(b.ki, &bytes);
+    let mid = exp.wrapping_add(d / 2);
+    vec![
+        exp.wrapping_sub(1),
+        exp,
+        exp.wrapping_add(1),
+        mid,
+        inc.wrapping_sub(1),
+        inc,
+        inc.wrapping_add(1),
+        inc.wrapping_add(3600),
+        exp.wrapping_sub(3600),
+        inc.wrapping_add(0x8000_0000),
+        0,
+        u32::MAX,
+        r.next() as u32,
+    ]
+}
+
+/// Injects 1–3 records with the RRset's owner and type but another class (CH, HS, NONE, ANY, unknown)
+/// at the first / a middle / the last position; the signed IN records stay untouched.
+fn inject_other_class(recs: &mut Vec<Rec>, r: &mut Rng) -> String {
+    let n = r.range(1, 3) as usize;
+    let mut where_ = vec![];
+    for _ in 0..n {
+        let mut x = r.pick(recs).clone();
+        if r.chance(1, 2) {
+            mutate_rd(&mut x.rd, r);
+        }
+        x.cls = *r.pick(&[3u16, 3, 4, 254, 255, 2, 7, 0, 65280]);
+        let pos = match r.below(3) {
+            0 => 0,
+            1 => recs.len(),
+            _ => r.below(recs.len() as u64 + 1) as usize,
+        };
+        where_.push(if pos == 0 { "first" } else if pos == recs.len() { "last" } else { "middle" });
+        recs.insert(pos, x);
+    }
+    format!("rrset.inject-other-class.{}", where_.join("+"))
+}
+
 fn flip_bit(v: &mut [u8], r: &mut Rng) {
     if !v.is_empty() {
         let i = r.below(v.len() as u64) as usize;
@@ -966,7 +1025,7 @@ fn mutate_rd(rd: &mut RD, r: &mut Rng) -> &'static str {
 
 /// applies one mutation; returns its label
 fn mutate(b: &mut Base, kproof: &mut Proof, r: &mut Rng) -> String {
-    let m = r.below(40);
+    let m = r.below(46);
     let lab: String = match m {
         0..=3 => "none".into(),
         4..=9 => {
@@ -1120,10 +1179,17 @@ fn mutate(b: &mut Base, kproof: &mut Proof, r: &mut Rng) -> String {
             }
             "different-key".into()
         }
-        _ => {
+        39 => {
             *kproof = *r.pick(&[Proof::Insecure, Proof::Bogus, Proof::Indeterminate]);
             "dnskey-proof".into()
         }
+        40..=42 => {
+            // a genuinely signed RRSIG with an empty validity period, at a clock around both timestamps
+            let clocks = make_empty_window(b, r);
+            b.now = *r.pick(&clocks);
+            "window.empty (expiration before inception)".into()
+        }
+        _ => inject_other_class(&mut b.recs, r),
     };
     lab
 }
@@ -1268,6 +1334,25 @@ fn gen_history(r: &mut Rng, kind: u64) -> Option<Vec<String>> {
                 lines.push(h_line(t0, 0, &keys, &b.s, &b.name, b.ty, &b.recs)?);
             }
         }
+        8 => {
+            // genuinely signed RRSIG with an empty validity period: never Secure, at any clock
+            let clocks = make_empty_window(&mut b, r);
+            for c in clocks.iter().take(r.range(3, 8) as usize) {
+                lines.push(h_line(*c, 0, &keys, &b.s, &b.name, b.ty, &b.recs)?);
+            }
+        }
+        9 => {
+            // a signed IN RRset plus injected records of another class with the same owner and type:
+            // RrsetMap groups them together, no record of the group may come back Secure
+            resign(&mut b);
+            let mut recs2 = b.recs.clone();
+            let _ = inject_other_class(&mut recs2, r);
+            if r.chance(1, 2) {
+                lines.push(h_line(t0, 0, &keys, &b.s, &b.name, b.ty, &b.recs)?);
+            }
+            lines.push(h_line(t0, 0, &keys, &b.s, &b.name, b.ty, &recs2)?);
+            lines.push(h_line(t0, 0, &keys, &b.s, &b.name, b.ty, &b.recs)?);
+        }
         _ => {
             // wrong key first (Bogus is cached), then the right key; and the reverse
             resign(&mut b);
@@ -1404,6 +1489,38 @@ pub fn run(o: &Opts, rec: &mut Recorder) {
             }
         }
     }
+    // hand-built: empty validity periods at every surrounding clock; other-class records at every position
+    {
+        let mut hr = Rng::new(6061);
+        for _ in 0..o.n(6, 40) {
+            let mut b = gen_base(&mut hr);
+            let clocks = make_empty_window(&mut b, &mut hr);
+            for c in clocks {
+                b.now = c;
+                if let Some(l) = vk_line(&b, Proof::Secure) {
+                    rec.stat("mutation.window-empty-handbuilt");
+                    exec(&l, rec);
+                }
+            }
+        }
+        for _ in 0..o.n(20, 200) {
+            let mut b = gen_base(&mut hr);
+            let base_recs = b.recs.clone();
+            for cls in [3u16, 4, 254, 65280] {
+                for pos in 0..=base_recs.len() {
+                    let mut recs = base_recs.clone();
+                    let mut x = base_recs[pos.min(base_recs.len() - 1)].clone();
+                    x.cls = cls;
+                    recs.insert(pos, x);
+                    b.recs = recs;
+                    if let Some(l) = vk_line(&b, Proof::Secure) {
+                        rec.stat("mutation.inject-other-class-handbuilt");
+                        exec(&l, rec);
+                    }
+                }
+            }
+        }
+    }
     // history part
     for h in hand_histories() {
         for l in h {
@@ -1412,9 +1529,9 @@ pub fn run(o: &Opts, rec: &mut Recorder) {
     }
     for i in 0..o.n(250, 20_000) {
         let mut rr = r.fork();
-        match catch(move || gen_history(&mut rr, i as u64 % 8)) {
+        match catch(move || gen_history(&mut rr, i as u64 % 11)) {
             Ok(Some(h)) => {
-                rec.stat(&format!("history.kind.{}", i % 8));
+                rec.stat(&format!("history.kind.{}", i % 11));
                 for l in h {
                     exec(&l, rec);
                 }
